@@ -2022,3 +2022,59 @@ func c01r17(rc *core.RC) {
 		rc.Unknown("encoder/uintptr-conversions", token.NoPos, "found %d conversions of a uintptr to another integer type in the encoder package", n)
 	}
 }
+
+// ---- C01.R18 which values sit in the interface word is the runtime's own answer ----
+
+// Whether a value is stored in the interface word itself or behind it decides how every entry point and the
+// interface opcodes read it (C01.R8, C08.R21, C08.R12). runtime.IfaceIndir is linked to reflect's own function
+// (a declaration without a body under //go:linkname), so the answer is the compiler's by construction. A
+// re-implementation has to state the compiler's rule: a struct is direct only when it has exactly one field and
+// that field is direct, an array only when it has exactly one element and that is direct. Skipping zero-size
+// members in front of the one that "fills the word" is not that rule: struct{ _ [0]func(); P *int } has two
+// fields and is stored indirectly.
+func c01r18(rc *core.RC) {
+	p := rc.P
+	fd := p.Func("runtime", "IfaceIndir")
+	key := "runtime.IfaceIndir/the-compiler's-rule"
+	if fd == nil {
+		rc.Unknown(key, token.NoPos, "declaration not found")
+		return
+	}
+	rc.Touch("runtime.IfaceIndir")
+	if fd.Body == nil {
+		linked := false
+		if fd.Doc != nil {
+			for _, c := range fd.Doc.List {
+				if strings.HasPrefix(c.Text, "//go:linkname IfaceIndir reflect.") {
+					linked = true
+				}
+			}
+		}
+		rc.Check(linked, key, fd.Pos(), "IfaceIndir has no body and is linked to reflect's own function: the answer is the compiler's")
+		return
+	}
+	info := p.Info(fd)
+	oneField, oneElem := false, false
+	ast.Inspect(fd.Body, func(m ast.Node) bool {
+		be, ok := m.(*ast.BinaryExpr)
+		if !ok || (be.Op != token.EQL && be.Op != token.NEQ) {
+			return true
+		}
+		v, isC := core.ConstInt(info, be.Y)
+		if !isC || v != 1 {
+			return true
+		}
+		if c, isCall := core.Unparen(be.X).(*ast.CallExpr); isCall {
+			if sel, isSel := core.Unparen(c.Fun).(*ast.SelectorExpr); isSel {
+				switch sel.Sel.Name {
+				case "NumField":
+					oneField = true
+				case "Len":
+					oneElem = true
+				}
+			}
+		}
+		return true
+	})
+	rc.Check(oneField && oneElem, key, fd.Pos(), "a hand-written IfaceIndir states the compiler's rule: a struct is direct only with exactly one field (NumField() compared with 1: %v), an array only with exactly one element (Len() compared with 1: %v); a version that skips zero-size members takes struct{ _ [0]func(); P *int } for direct and the encoder reads the address of the struct as its member", oneField, oneElem)
+}
